@@ -20,10 +20,16 @@ theorem C07_tie_hook_replaced :
     hookKeyReplacedBranches = (["GetUnbondingCompletionEpoch", "AppendConsensusAddrToPrune"],
                                ["DeleteOperatorAddressForChainIDAndConsAddr"]) := by decide
 
-/-- AfterOperatorKeyRemovalInitiated: key in the set ⇒ SetOptOutInformation; otherwise only the
-reverse lookup is deleted (the F-07a branch of `optOut`) -/
+/-- AfterOperatorKeyRemovalInitiated (after the F-07a fix): scheduled ⇒ SetOptOutInformation;
+otherwise the removal is completed at once with CompleteOperatorKeyRemovalForChainID (the two
+branches of `optOut`) -/
 theorem C07_tie_hook_removal :
-    hookKeyRemovalBranches = (["SetOptOutInformation"], ["DeleteOperatorAddressForChainIDAndConsAddr"]) := by decide
+    hookKeyRemovalBranches = (["SetOptOutInformation"], ["CompleteOperatorKeyRemovalForChainID"]) := by decide
+
+/-- … and "scheduled" means: the current key is in the validator set, or else the previous key
+(the one replaced during this epoch) is (`prevIn` in `optOut`) -/
+theorem C07_tie_hook_removal_prev_key :
+    hookKeyRemovalPrevKeyCheck = ["GetOperatorPrevConsKeyForChainID", "GetExocoreValidator"] := by decide
 
 /-- CompleteOperatorKeyRemovalForChainID deletes both forward entries, the reverse entry of the
 current key and the marker (`completeRemoval`) -/
